@@ -1,0 +1,11 @@
+//go:build !verif
+
+package grpctunnel
+
+// verifYield marks a statement boundary that verification builds (tag
+// "verif") can observe. Without the tag it is an empty function.
+func verifYield(string, int64) {}
+
+// verifServerStarted lets verification builds find the tunnel server that a
+// call to serveTunnel created. Without the tag it is an empty function.
+func verifServerStarted(*tunnelServer) {}
